@@ -364,3 +364,67 @@ Proof. vm_compute. repeat split; reflexivity. Qed.
 
 Example C06_law_nonvacuous : (1 < 2)%R /\ Kc 255 15 = 240%nat /\ (val 2 3 2 = 2)%R.
 Proof. split; [lra|]. split; [reflexivity|]. apply val_reserved; [lra|lia]. Qed.
+
+(* ---------------- source tie (_rand, _log_counter) ----------------
+   _rand (countmin.py l.179-184) and the body of _log_counter's loop (l.223, l.226-235) as regenerated from the source
+   AST on this run (generated/KernelsLog.v, harness/pytrans_log.py).  gen_rand: rand_ptr -> (length of the refill or 0,
+   index of the element returned, new rand_ptr); KernelTieLogRand.rand_assembled reads the element from the refilled
+   batch when the length is positive.  gen_log_counter_step: (pow oracle, base, the number _rand would return, counter,
+   num_reserved, uint_maxval) -> None for `return counter, rand_ptr`, else Some (counter, 1 if _rand was called else 0),
+   with `float64(counter) - float64(num_reserved)`, `cprime < 0` and `rand < base ** (-cprime)` in PrimFloat;
+   KernelTieLogCounter.lc_step_assembled advances the random source exactly when the flag is 1 and lc_iter_assembled
+   iterates it.  The float test is proved to be the integer test of the model (binary64 subtraction of integers below
+   2^53 is exact); the hypothesis on fpow is the meaning of the input table powneg (DESIGN 3.4). *)
+From Sketchnu Require KernelsLog KernelTieLogRand KernelTieLogCounter.
+Theorem C06_rand_source_tie :
+  (forall p : Z, 0 <= p < 2^64 - 1 ->
+     KernelsLog.gen_rand p = if p =? rand_batch_cmp then (rand_batch_gen, 0, 1) else (0, p, p + 1)) /\
+  (forall rs : rsrc, 0 <= rptr rs < 2^64 - 1 -> rand rs = KernelTieLogRand.rand_assembled rs).
+Proof. exact KernelTieLogRand.tie_rand_all. Qed.
+Print Assumptions C06_rand_source_tie.
+
+Example C06_rand_source_tie_nonvacuous :
+  map KernelsLog.gen_rand [0; 5; 2047; 2048] = [(0, 0, 1); (0, 5, 6); (0, 2047, 2048); (2048, 0, 1)] /\
+  let rs := mk_rs 2046 [0x1p-1; 0x1p-2]%float 2047 [[0x1p-3; 0x1p-4]%float] in
+  let r1 := KernelTieLogRand.rand_assembled rs in
+  let r2 := KernelTieLogRand.rand_assembled (snd r1) in
+  (fst r1, rptr (snd r1), fst r2, rptr (snd r2), length (rfuture (snd r2))) = ((0x1p-2)%float, 2048, (0x1p-3)%float, 1, 0%nat) /\
+  r1 = rand rs /\ r2 = rand (snd r1).
+Proof. vm_compute. repeat split; reflexivity. Qed.
+
+Theorem C06_log_counter_source_tie : forall (fpow : float -> float -> float) (base : float) (nr umax : Z) (powneg : Z -> float),
+  0 <= nr < 2^16 -> 0 <= umax < 2^16 ->
+  (forall c, nr <= c < umax -> fpow base (PrimFloat.opp (PrimFloat.sub (z2f c) (z2f nr))) = powneg (c - nr)) ->
+  (forall (r : float) (c : Z), 0 <= c < 2^16 ->
+     KernelsLog.gen_log_counter_step fpow base r c nr umax =
+     if c >=? umax then None
+     else if c - nr <? 0 then Some (c + 1, 0)
+     else if PrimFloat.ltb r (powneg (c - nr)) then Some (c + 1, 1) else Some (c, 1)) /\
+  (forall (c : Z) (rs : rsrc), 0 <= c < 2^16 ->
+     lc_step nr umax powneg (c, rs) = KernelTieLogCounter.lc_step_assembled fpow base nr umax (c, rs)) /\
+  (forall (c : Z) (rs : rsrc) (v : Z), 0 <= c < 2^16 ->
+     log_counter nr umax powneg c rs v = KernelTieLogCounter.lc_iter_assembled fpow base nr umax (Z.to_nat v) (c, rs)) /\
+  (forall c p : Z, 0 <= c < 2^16 -> 0 <= p < 2^64 -> KernelsLog.gen_log_counter_ret c p = (c, p)).
+Proof. exact KernelTieLogCounter.tie_log_counter_all. Qed.
+Print Assumptions C06_log_counter_source_tie.
+
+(* base 2 with an exact power function for integer exponents; num_reserved = 3, uint_maxval = 10; the table powneg is
+   by definition what the code computes, so the hypothesis of the theorem holds for every fpow *)
+Example C06_log_counter_source_tie_nonvacuous :
+  let fpow := fun (b e : float) => ldshiftexp f_one (Uint63.of_Z (f2z_trunc e + 2101)) in
+  let two := (0x1p+1)%float in
+  let pn := fun d => fpow two (PrimFloat.opp (PrimFloat.sub (z2f (d + 3)) (z2f 3))) in
+  map (fun rc => KernelsLog.gen_log_counter_step fpow two (fst rc) (snd rc) 3 10)
+      [(f_half, 2); (f_zero, 3); (f_half, 4); ((0x1p-2)%float, 4); ((0x1p-3)%float, 5); (f_zero, 10); (f_zero, 65535)]
+  = [Some (3, 0); Some (4, 1); Some (4, 1); Some (5, 1); Some (6, 1); None; None] /\
+  (forall c, 3 <= c < 10 -> fpow two (PrimFloat.opp (PrimFloat.sub (z2f c) (z2f 3))) = pn (c - 3)) /\
+  map pn [0; 1; 2] = [f_one; f_half; (0x1p-2)%float] /\
+  map (fun c => KernelTieLogCounter.lc_step_assembled fpow two 3 10 (c, rs_ex)) [2; 3; 4; 10]
+  = map (fun c => lc_step 3 10 pn (c, rs_ex)) [2; 3; 4; 10] /\
+  KernelTieLogCounter.lc_iter_assembled fpow two 3 10 5 (1, rs_ex) = log_counter 3 10 pn 1 rs_ex 5 /\
+  fst (log_counter 3 10 pn 1 rs_ex 5) = 5.
+Proof.
+  cbv zeta. split; [vm_compute; reflexivity|]. split.
+  - intros c Hc. replace (c - 3 + 3) with c by lia. reflexivity.
+  - vm_compute. repeat split; reflexivity.
+Qed.
